@@ -124,3 +124,35 @@ Proof.
   pose proof (decode_rune_width s Hs) as [H1 H2]. rewrite Hd in H1, H2. simpl in H1, H2.
   rewrite skipn_length in IH1. lia.
 Qed.
+
+(* the encoding of valid runes is valid UTF-8 *)
+Lemma encode_rune_not_error_byte (r : N) : valid_rune r = true ->
+  (r =? RuneError)%N && Nat.eqb (length (encode_rune r)) 1 = false.
+Proof.
+  intros _. unfold encode_rune, RuneError.
+  destruct (N.ltb_spec r 128) as [H|H].
+  { destruct (N.eqb_spec r 65533); [lia|reflexivity]. }
+  destruct (r <? 2048)%N; [apply andb_false_r|].
+  destruct (negb (valid_rune r)); [apply andb_false_r|].
+  destruct (r <? 65536)%N; apply andb_false_r.
+Qed.
+
+Lemma valid_fuel_encode rs : forall fuel,
+  all_valid rs -> length (encode_all rs) <= fuel -> valid_fuel fuel (encode_all rs) = true.
+Proof.
+  induction rs as [|r rs IH]; intros fuel Hv Hf.
+  - destruct fuel; reflexivity.
+  - inversion Hv as [|? ? Hr Hrs]; subst.
+    pose proof (encode_rune_length r) as [Hl _].
+    assert (Es : encode_all (r :: rs) = encode_rune r ++ encode_all rs) by reflexivity.
+    rewrite Es in *. rewrite app_length in Hf.
+    destruct fuel as [|f]; [lia|]. cbn [valid_fuel].
+    destruct (encode_rune r ++ encode_all rs) as [|b0 s'] eqn:Ec.
+    { apply (f_equal (@length N)) in Ec. rewrite app_length in Ec. simpl in Ec. lia. }
+    rewrite <- Ec, decode_encode_rune by exact Hr.
+    rewrite encode_rune_not_error_byte by exact Hr.
+    rewrite skipn_app_exact. apply IH; [exact Hrs|lia].
+Qed.
+
+Lemma valid_encode_all rs : all_valid rs -> valid (encode_all rs) = true.
+Proof. intros Hv. apply valid_fuel_encode; [exact Hv|lia]. Qed.
